@@ -13,6 +13,7 @@ import hashlib
 import hmac
 import itertools
 import json
+import os
 import random
 import struct
 import sys
@@ -245,9 +246,9 @@ def universe(quick):
     if quick:
         ike = dict(local=dict(encr=two(['aes128', 'aes256']), integ=[('sha256',), ('sha512', 'sha256')], prf=[('sha256',)],
                               dh=two(['19', '20'])),
-                   peer=[sublists([E_A, E_B] + ENCR_VARIANTS), sublists([I_A, I_B]), sublists([P_A]),
+                   peer=[sublists([E_A, E_B] + ENCR_VARIANTS[:2]), sublists([I_A, I_B]), sublists([P_A]),
                          sublists([D_A, D_B, FOREIGN[4]])],
-                   pair=[base(E_A, E_B), [(), (I_A,), (I_B, I_A)], [(P_A,)], base(D_A, D_B)])
+                   pair=[base(E_A, E_B), [(), (I_B, I_A)], [(P_A,)], base(D_A, D_B)])
         child = dict(local=dict(encr=two(['aes128', 'aes256']), integ=[('sha256',), ('sha512', 'sha256')],
                                 dh=[()] + two(['19', '20'])),
                      peer=[sublists([E_A, E_B] + ENCR_VARIANTS), sublists([I_A, I_B]),
@@ -258,7 +259,7 @@ def universe(quick):
                               prf=two(['sha256', 'sha512']), dh=two(['19', '20'])),
                    peer=[sublists([E_A, E_B] + ENCR_VARIANTS), sublists([I_A, I_B, FOREIGN[3]]),
                          sublists([P_A, P_B, FOREIGN[2]]), sublists([D_A, D_B, FOREIGN[4]])],
-                   pair=[base(E_A, E_B), [(), (I_A,), (I_B, I_A)], [(), (P_A,), (P_B, P_A)], base(D_A, D_B)])
+                   pair=[base(E_A, E_B), [(), (I_B, I_A)], [(), (P_B, P_A)], base(D_A, D_B)])
         child = dict(local=dict(encr=two(['aes128', 'aes256']), integ=two(['sha256', 'sha512']),
                                 dh=[()] + two(['19', '20'])),
                      peer=[sublists([E_A, E_B] + ENCR_VARIANTS), sublists([I_A, I_B, FOREIGN[3]]),
@@ -655,10 +656,6 @@ def e2e_case(case):
                     case['a'], case['b'], case['level'], case['proto'], text)) for c, k, e, text in bad])
 
 
-def e2e_worker(chunk):
-    return [e2e_case(c) for c in chunk]
-
-
 # ==================================================================== part 3: tampering responder
 
 T_IKE = dict(encr=['aes128', 'aes256'], integ=['sha256', 'sha512'], prf=['sha256', 'sha512'], dh=['19', '20'])
@@ -827,8 +824,13 @@ def tamper_case(target, label):
                 found=[('tamper:%s:%s:%s' % (target, label, e), text) for e, text in bad])
 
 
-def tamper_worker(item):
-    return tamper_case(*item)
+def work(item):
+    part, arg = item
+    if part == 'unit':
+        return unit_worker(arg)
+    if part == 'e2e':
+        return [e2e_case(c) for c in arg]
+    return [tamper_case(*t) for t in arg]
 
 
 def tamper_items():
@@ -880,46 +882,55 @@ def main():
     if ck.args.replay:
         replay(ck.args.replay)
     rnd = random.Random(ck.seed)
-    # ---- part 1
+    # On this (shared, virtualised) machine forking many workers costs more than it gains when the cores are
+    # busy: unless --jobs / VERIF_JOBS says otherwise use the idle cores only.  The set explored does not depend on it.
+    if not ck.args.jobs:
+        ck.jobs = max(3, min(ck.jobs, int((os.cpu_count() or 4) - os.getloadavg()[0])))
     build_universe(ck.quick)
     identity_premise()
-    items = [(kind, i) for kind in ('ike', 'child') for i in range(len(U[kind]['locals']))]
-    rnd.shuffle(items)
-    res = ck.pmap(unit_worker, items)
+    cases = e2e_cases(ck.quick)
+    titems = tamper_items()
+    rnd.shuffle(cases)
+    work_items = [('unit', (kind, i)) for kind in ('ike', 'child') for i in range(len(U[kind]['locals']))]
+    work_items += [('e2e', cases[k:k + 16]) for k in range(0, len(cases), 16)]
+    work_items += [('tamper', titems[k:k + 24]) for k in range(0, len(titems), 24)]
+    rnd.shuffle(work_items)
+    results = ck.pmap(work, work_items)
+    # ---- part 1
+    res = [r for (part, _), r in zip(work_items, results) if part == 'unit']
     n_unit = sum(r['n'] for r in res)
     nt_unit = sum(r['nontrivial'] for r in res)
     why = [sum(r['why'][i] for r in res) for i in range(4)]
     for r in res:
         for sig in sorted(r['found']):
             ck.violation(sig, r['found'][sig][0], r['found'][sig][1])
-    samples = [r['sample'] for r in res if r['sample']][:3]
+    samples = sorted((r['sample'] for r in res if r['sample']), key=repr)[:3]
     # ---- part 2
-    cases = e2e_cases(ck.quick)
-    order = list(range(len(cases)))
-    rnd.shuffle(order)
-    chunks = [[cases[i] for i in order[k::48]] for k in range(48)]
-    outs = ck.pmap(e2e_worker, [c for c in chunks if c])
-    flat_cases = [c for ch in chunks for c in ch]
-    flat = [r for ch in outs for r in ch]
-    for case, r in sorted(zip(flat_cases, flat), key=lambda x: json.dumps(x[0], sort_keys=True)):
+    flat_cases = [c for (part, chunk) in work_items if part == 'e2e' for c in chunk]
+    flat = [r for (part, _), rs in zip(work_items, results) if part == 'e2e' for r in rs]
+    both = sorted(zip(flat_cases, flat), key=lambda x: json.dumps(x[0], sort_keys=True))
+    for case, r in both:
         for sig, msg in r['found']:
             ck.violation(sig, msg, dict(part='e2e', case=case))
     e2e_outcomes = {r['outcome'] for r in flat}
     nt_e2e = sum(r['nontrivial'] for r in flat)
     ke_rounds = sum(1 for r in flat if r['outcome'][2] or r['outcome'][5])
     refusals = sum(1 for r in flat if 'refused' in (r['outcome'][0], r['outcome'][3], r['outcome'][4]))
-    for case, r in zip(flat_cases, flat):
-        if r['outcome'][2] and r['outcome'][5]:
-            samples.append(dict(e2e=case, outcome=repr(r['outcome'])))
-            break
+    for pick in (lambda o: o[2], lambda o: o[5], lambda o: o[0] == 'refused', lambda o: o[4] == 'refused'):
+        for case, r in both:
+            if pick(r['outcome']):
+                samples.append(dict(e2e=case, outcome=repr(r['outcome'])))
+                break
     # ---- part 3
-    titems = tamper_items()
-    touts = ck.pmap(tamper_worker, titems)
-    for (target, label), r in zip(titems, touts):
+    tflat = [t for (part, chunk) in work_items if part == 'tamper' for t in chunk]
+    touts = [r for (part, _), rs in zip(work_items, results) if part == 'tamper' for r in rs]
+    tboth = sorted(zip(tflat, touts), key=lambda x: x[0])
+    for (target, label), r in tboth:
         for sig, msg in r['found']:
             ck.violation(sig, msg, dict(part='tamper', target=target, label=label))
     nt_tamper = sum(1 for r in touts if r['must_refuse'])
-    samples.append(dict(tamper=[list(titems[i]) + [repr(touts[i]['outcome'])] for i in (1, len(titems) // 2, len(titems) - 3)]))
+    samples.append(dict(tamper=[list(tboth[i][0]) + [repr(tboth[i][1]['outcome'])]
+                                for i in (1, len(tboth) // 2, len(tboth) - 3)]))
 
     ck.coverage.update(
         evaluations=n_unit + len(flat) + len(titems),
@@ -937,7 +948,7 @@ def main():
                   alphabets=U['alphabets']),
         e2e=dict(handshakes=len(flat), distinct_outcomes=len(e2e_outcomes), with_invalid_ke_round=ke_rounds,
                  with_refusal=refusals, nontrivial=nt_e2e),
-        tamper=dict(cases=len(titems), must_be_refused=nt_tamper,
+        jobs=ck.jobs, tamper=dict(cases=len(titems), must_be_refused=nt_tamper,
                     distinct_outcomes=len({r['outcome'] for r in touts})))
     ck.assumptions += [
         'the kernel is the model SAD of harness/kernel.py; the algorithms are read from the XFRM_MSG_NEWSA bytes',
